@@ -135,6 +135,7 @@ func runGetDagCase(carBin string, raw []byte, dir string) (string, string, bool)
 }
 
 func runGetDagReplay(args []string) int {
+	tvNoIdentityLeaf = true
 	in, out, carBin := args[0], args[1], args[2]
 	seed, permille := uint64(1), 1000
 	for _, a := range args[3:] {
